@@ -44,7 +44,7 @@ var fifoDir string
 
 func fifoPaths() (string, string, string, error) {
 	if fifoDir == "" {
-		d, err := os.MkdirTemp("", "vsim-fifo-")
+		d, err := os.MkdirTemp(*fTmp, "vsim-fifo-")
 		if err != nil {
 			return "", "", "", err
 		}
